@@ -16,7 +16,13 @@ func main() {
 	driver := flag.String("driver", "", "path to the Lean driver executable")
 	out := flag.String("out", "", "result JSON path")
 	scratch := flag.String("scratch", "/var/tmp/gonuts-verif", "scratch directory (outside /repo, /verif, /tmp)")
+	shard := flag.String("shard", "0/1", "k/n: this run is shard k of n (streams that enumerate split their work by it)")
 	flag.Parse()
+	shardK, shardN := 0, 1
+	fmt.Sscanf(*shard, "%d/%d", &shardK, &shardN)
+	if shardN < 1 || shardK < 0 || shardK >= shardN {
+		shardK, shardN = 0, 1
+	}
 
 	if *stream == "list" {
 		for _, k := range sortedKeys(streams) {
@@ -47,7 +53,7 @@ func main() {
 	res := &Result{Stream: *stream, Seed: *seed, Tier: *tier, Rule: info.rule, Props: info.props,
 		Samples: []any{}, Disagreements: []Disagreement{}, MonitorFailures: []MonitorFailure{}, KnownWitnesses: []MonitorFailure{}}
 	ctx := &Ctx{Rng: NewRng(*seed), Seed: *seed, Tier: *tier, Thorough: *tier == "thorough", Drv: drv, Res: res,
-		Scratch: dir, distinct: map[string]bool{}}
+		Scratch: dir, distinct: map[string]bool{}, ShardK: shardK, ShardN: shardN}
 	func() {
 		defer func() {
 			if r := recover(); r != nil {
